@@ -42,7 +42,7 @@ def gen(rng, n_tus=None, n_platforms=None, outside=False, missing=0.0, toggles=T
     again: the body must be read a second time under the new macro state.
     oddnames: the first translation unit includes a header without a recognised extension (`tab.def`) that includes
     another one (`tab2.tbl`), a header without any extension (`Dense`), and headers whose names hold letters outside
-    ASCII (`gr\u00f6\u00dfe.h`, `ma\u00df/l\u00e4nge.h` through a search directory).
+    ASCII (`gr\u00f6\u00dfe.h`, `ma\u00df/l\u00e4nge.h` through a search directory); the command also forces `inc/forced.def` with -include.
     updir: some includes are spelled with a leading `../` (`"../inc2/x.h"`): such a name is looked up beside the
     includer and then relative to every search directory, like any other.
     links: a header outside the root (and one inside it) gets a second name inside the root through a file symlink, and
@@ -249,6 +249,11 @@ def gen(rng, n_tus=None, n_platforms=None, outside=False, missing=0.0, toggles=T
         if forced and rng.random() < 0.4:
             includes.append(rng.choice(["@abs:inc/pre.h", "pre.h" if any(s[1] == "inc" for s in search) else "@abs:inc/pre.h",
                                         "@rel:inc/pre.h"]))
+        if oddnames and t == 0:
+            # a forced include without a recognised extension (a generated table, a configuration fragment)
+            files["inc/forced.def"] = [["code"], ["define", "D_FORCED_DEF", None], ["code"]]
+            files[rel] = files[rel] + [["chain", [["ifdef", "D_FORCED_DEF", [["code"]]], ["else", None, [["code"]]]]]]
+            includes.append("@abs:inc/forced.def")
         tus.append({"platform": None, "file": rel, "defines": defines, "search": search, "includes": includes})
     # platform names with dashes, dots, underscores, mixed case, and one being a prefix of another
     pool = ["p0", "gpu-2", "x.y", "A_B", "cpu", "cpu-avx512", "Z9"]
